@@ -4,6 +4,8 @@ use serde_json::Value;
 
 pub mod c01;
 pub mod c03;
+pub mod c04;
+pub mod c04_world;
 pub mod c05;
 pub mod c06;
 pub mod c07;
@@ -13,6 +15,9 @@ pub mod c15;
 pub mod c15_world;
 pub mod c16;
 pub mod c16_fn;
+pub mod c18;
+pub mod c18_fn;
+pub mod c18_world;
 pub mod c19;
 pub mod c19_fn;
 pub mod c12;
@@ -25,11 +30,13 @@ pub fn run(id: &str, ctx: &Ctx) -> i32 {
     match id {
         "C01" => finish(ctx, c01::run(ctx), Some(&c01::replay)),
         "C03" => finish(ctx, c03::run(ctx), Some(&c03::replay)),
+        "C04" => finish(ctx, c04::run(ctx), Some(&c04::replay)),
         "C05" => finish(ctx, c05::run(ctx), Some(&c05::replay)),
         "C06" => finish(ctx, c06::run(ctx), Some(&c06::replay)),
         "C08" => finish(ctx, c08::run(ctx), Some(&c08::replay)),
         "C15" => finish(ctx, c15::run(ctx), Some(&c15::replay)),
         "C16" => finish(ctx, c16::run(ctx), Some(&c16::replay)),
+        "C18" => finish(ctx, c18::run(ctx), Some(&c18::replay)),
         "C19" => finish(ctx, c19::run(ctx), Some(&c19::replay)),
         "C12" => finish(ctx, c12::run(ctx), Some(&c12::replay)),
         "C13" => finish(ctx, c13::run(ctx), Some(&c13::replay)),
@@ -47,11 +54,13 @@ pub fn replay(id: &str, case: &Value) -> Result<(), String> {
     match id {
         "C01" => c01::replay(case),
         "C03" => c03::replay(case),
+        "C04" => c04::replay(case),
         "C05" => c05::replay(case),
         "C06" => c06::replay(case),
         "C08" => c08::replay(case),
         "C15" => c15::replay(case),
         "C16" => c16::replay(case),
+        "C18" => c18::replay(case),
         "C19" => c19::replay(case),
         "C12" => c12::replay(case),
         "C13" => c13::replay(case),
